@@ -453,6 +453,15 @@ def run_unit(unit_dir, tier, seed, scratch):
     u.auto_stubs = sorted({st['qual'] for lst in auto.values() for st in lst}) if auto else []
     u.auto_map = auto
     u.confirmed = []
+    u.bounded = []
+    # bounded stand-ins: clauses no contract within reach expresses are checked by the unit's native
+    # enumerator over its stated finite domain on every run; labelled bounded, never counted as proved
+    if hasattr(u, 'gen') and u.gen.opts.get('bounded'):
+        try:
+            import witness
+            u.bounded = witness.bounded(u, unit_dir, scratch, u.gen.opts['bounded'].split(','))
+        except Exception as e:
+            u.bounded = [dict(label=l, fn='', result='error', why=repr(e)) for l in u.gen.opts['bounded'].split(',')]
     if u.status == 'undecided' and not u.reason.startswith(('vacuity', 'contract too weak', 'unstable')):
         # the proof could not even be attempted (lost anchor / unsupported construct).  That is never an
         # alarm by itself; but a concrete failing input found by replaying the extracted real code is.
@@ -577,6 +586,7 @@ def report(prop, tier, seed, results, extras, wall, rebaseline, replay):
     rules = set()
     cmds = []
     kf_obls = []
+    bounded_rows = []
     smt_s = 0.0
     newbase = {}
     for u in results:
@@ -617,6 +627,19 @@ def report(prop, tier, seed, results, extras, wall, rebaseline, replay):
             else:
                 violations.append((None, dict(engine='replay of extracted real code (proof undecided: %s)' % u.reason[:200],
                                               output=u.reason, witness=c['witness']), nm))
+        for b in getattr(u, 'bounded', []):
+            bounded_rows.append(dict(unit=u.name, **{k: v for k, v in b.items() if k != 'witness'}))
+            nm = '%s:%s/%s' % (u.name, b.get('fn') or '<bounded>', b['label'])
+            if b['result'] == 'witness':
+                k = match_known(known, prop, nm, '')
+                if k is not None:
+                    known_hits.append((k, nm))
+                    kf_obls.append(nm)
+                else:
+                    violations.append((None, dict(engine='bounded stand-in: native replay of the extracted real code over an enumerated domain',
+                                                  output='bounded check found a failing input', witness=b['witness']), nm))
+            elif b['result'] == 'error':
+                undecided.append('%s: bounded stand-in %s could not run: %s' % (u.name, b['label'], b.get('why', '')))
         if u.status == 'undecided':
             undecided.append('%s: %s' % (u.name, u.reason))
         # obligations: verifier-counted verification units (functions / proofs) of the main file and variants
@@ -708,6 +731,7 @@ def report(prop, tier, seed, results, extras, wall, rebaseline, replay):
             mustfail_probe=mustfail,
             mutants=mutants, seeds=seeds,
             known_finding_obligations=sorted(set(kf_obls)),
+            bounded_standins=bounded_rows,
             undecided=undecided,
             extras=[{k: v for k, v in e.items() if k in ('engine', 'obligations', 'discharged', 'harnesses', 'note', 'wall_s')} for e in extras],
             not_decided=not_decided_text(prop),
